@@ -54,13 +54,14 @@ func (k msgServer) Store(goCtx context.Context, msg *types.MsgStore) (*types.Msg
 		return nil, sdkerrors.Wrapf(types.ErrInvalidCid, "invalid cid: %s", proposal.Cid)
 	}
 
-	if !strings.Contains(proposal.CommitId, proposal.DataId) {
-		// validate the permission for all update operations
-		meta, isFound := k.Keeper.model.GetMetadata(ctx, proposal.DataId)
-		if !isFound {
+	// validate the permission for all update operations: whatever the commit id
+	// looks like, an existing model is only changed by its owner or a read-write did
+	meta, isFound := k.Keeper.model.GetMetadata(ctx, proposal.DataId)
+	if !isFound {
+		if !strings.Contains(proposal.CommitId, proposal.DataId) {
 			return nil, status.Errorf(codes.NotFound, "metadata :%s not found", proposal.DataId)
 		}
-
+	} else {
 		isValid := meta.Owner == sigDid
 		if !isValid {
 			for _, readwriteDid := range meta.ReadwriteDids {
@@ -218,7 +219,7 @@ func (k msgServer) Store(goCtx context.Context, msg *types.MsgStore) (*types.Msg
 	}
 
 	// avoid version conflicts
-	meta, found := k.model.GetMetadata(ctx, proposal.DataId)
+	meta, found = k.model.GetMetadata(ctx, proposal.DataId)
 	if found {
 		if meta.OrderId > orderId {
 			// report error if order id is less than the latest version
